@@ -684,7 +684,7 @@ def obligations(tier):
         pats = [(1, 2, 3), (2, 2, 2)]
         wall = 600
     else:
-        pats = [(1, 3, 4), (2, 2, 3), (2, 3, 3), (3, 2, 3)]
+        pats = [(1, 3, 4), (2, 2, 3), (2, 3, 2), (3, 2, 2)]
         wall = 3000
     for A, MAXD, S in pats:
         # split by the first argument's rank (and out rank) so that slices run in parallel; each slice is decided by z3
